@@ -1,8 +1,8 @@
 #!/bin/bash
 # usage: tools/run_all.sh [seed] [tier] [jobs]  — runs every check in MANIFEST.json, prints one line per property
 seed=${1:-0}; tier=${2:-quick}; jobs=${3:-4}
-cd /verif
-mkdir -p /tmp/runall
+cd "$(dirname "$0")/.." || exit 2
+out=${RUNALL_OUT:-/tmp/runall}; mkdir -p $out
 python3 -c "
 import json
-for c in json.load(open('MANIFEST.json'))['checks']: print(c['property_id'])" | xargs -P $jobs -I{} sh -c "VERIF_SEED=$seed ./check {} --tier $tier > /tmp/runall/{}.log 2>&1; echo {} exit=\$? \$(grep -E '^OK|VIOLATION' /tmp/runall/{}.log | head -1 | cut -c1-150)"
+for c in json.load(open('MANIFEST.json'))['checks']: print(c['property_id'])" | xargs -P $jobs -I{} sh -c "VERIF_SEED=$seed ./check {} --tier $tier > $out/{}.log 2>&1; echo {} exit=\$? \$(grep -E '^OK|VIOLATION' $out/{}.log | head -1 | cut -c1-150)"
